@@ -61,14 +61,16 @@ type fieldSpec struct {
 }
 
 var supported = []string{"bytes", "string", "secret", "binval", "binptr", "json-struct", "json-map", "json-int"}
-var unsupported = []string{"int", "strings", "strptr", "strmap", "bool", "empty-tag", "empty-tag-json", "arr8", "arrptr", "any", "float", "rune-slice"}
+var unsupported = []string{"int", "strings", "strptr", "strmap", "bool", "empty-tag", "empty-tag-json", "arr8", "arrptr", "any", "float", "rune-slice", "empty-tag-json-str", "empty-tag-json-bytes", "empty-tag-other-str"}
 var untagged = []string{"u-int", "u-string", "u-bytes", "u-intptr", "u-secret"}
 
 func typeOf(kind string) reflect.Type {
 	switch kind {
 	case "bytes", "u-bytes":
 		return reflect.TypeOf([]byte(nil))
-	case "string", "u-string", "empty-tag":
+	case "empty-tag-json-bytes":
+		return reflect.TypeOf([]byte(nil))
+	case "string", "u-string", "empty-tag", "empty-tag-json-str", "empty-tag-other-str":
 		return reflect.TypeOf("")
 	case "secret", "u-secret":
 		return reflect.TypeOf(setec.Secret(nil))
@@ -130,8 +132,12 @@ func gen(rng *rand.Rand, idx int) shape {
 			f.Tagged, f.BadShape = true, true
 			f.Tag = tags[rng.IntN(len(tags))]
 			if strings.HasPrefix(f.Kind, "empty-tag") {
+				// an empty NAME, whatever follows the comma (`setec:",json"`, `setec:",,other"`)
 				f.Tag = ""
-				f.JSON = f.Kind == "empty-tag-json"
+				f.JSON = strings.HasPrefix(f.Kind, "empty-tag-json")
+				if f.Kind == "empty-tag-other-str" {
+					f.Tag = ",,other"[:1+rng.IntN(2)*6] // "," or ",,other"
+				}
 			}
 		default:
 			f.Kind = supported[rng.IntN(len(supported))]
